@@ -4,7 +4,9 @@ import shapes, nslgen, gentyped, vmcases, ircoq
 from nslgen import *
 from props import c01
 
-STATIC = ["Model/IR.v", "Model/VM.v", "Model/WfIR.v", "Model/Opt.v", "Proofs/WfIRProofs.v", "Proofs/OptProofs.v", "Proofs/ForwardProofs.v", "Harness/FwdLib.v", "Proofs/LowerWfProofs.v", "Proofs/StraightOptProofs.v"]
+STATIC = ["Model/IR.v", "Model/VM.v", "Model/WfIR.v", "Model/Opt.v", "Proofs/WfIRProofs.v", "Proofs/OptProofs.v", "Proofs/ForwardProofs.v", "Harness/FwdLib.v", "Proofs/LowerWfProofs.v", "Proofs/StraightOptProofs.v",
+          "Proofs/ForwardFlowProofs.v", "Harness/FwdFlowLib.v", "Proofs/FlowOptProofs.v",
+          "Proofs/ForwardFlowFailProofs.v", "Proofs/ConstCastFlowProofs.v", "Harness/CCLib.v", "Proofs/OptPipelineExample.v"]
 
 
 def targeted(rng):
@@ -38,6 +40,22 @@ def targeted(rng):
     out.append(("global", Module([Global("int", "g0"), Func("f", [Arg("int", "a")], "int", Block([ES(A(V("g0"), a)), Decl("int", "x", V("g0")), ES(A(V("g0"), B("+", V("x"), I(1)))), Ret(V("g0"))]), export=True)])))
     out.append(("struct-copy-member", prog([Decl("S", "s", None), ES(A(Mem(V("s"), "m"), a)), Decl("S", "t", None), ES(A(V("t"), V("s"))), Ret(B("+", Mem(V("t"), "m"), I(1)))], extra=[S])))
     out.append(("struct-copy-member-store", prog([Decl("S", "s", None), Decl("S", "t", None), ES(A(V("t"), V("s"))), ES(A(Mem(V("t"), "m"), a)), Ret(Mem(V("t"), "m"))], extra=[S])))
+    # an aggregate is copied, the copy is written in place, and BOTH are read afterwards (a forwarded load must not make the copy an alias)
+    for nm, val in (("const", I(7)), ("arg", B("+", a, I(1)))):
+        out.append(("struct-copy-store-both-" + nm, prog([Decl("S", "s", None), Decl("S", "t", None), ES(A(Mem(V("s"), "m"), a)), ES(A(V("t"), V("s"))), ES(A(Mem(V("t"), "m"), val)),
+                                                          Ret(B("+", B("*", Mem(V("s"), "m"), I(100)), Mem(V("t"), "m")))], extra=[S])))
+        out.append(("struct-init-copy-store-both-" + nm, prog([Decl("S", "s", None), ES(A(Mem(V("s"), "m"), a)), Decl("S", "t", V("s")), ES(A(Mem(V("t"), "m"), val)),
+                                                               Ret(B("+", B("*", Mem(V("s"), "m"), I(100)), Mem(V("t"), "m")))], extra=[S])))
+        out.append(("array-copy-store-both-" + nm, prog([Decl("int", "x", None, dims=[3]), ES(A(Idx(V("x"), I(1)), a)), Decl("int", "y", None, dims=[3]), ES(A(V("y"), V("x"))), ES(A(Idx(V("y"), I(1)), val)),
+                                                         Ret(B("+", B("*", Idx(V("x"), I(1)), I(100)), Idx(V("y"), I(1))))])))
+        out.append(("array-param-copy-store-both-" + nm, Module([Func("f", [{"t": "int", "n": "arr", "dims": [2]}, Arg("int", "a")], "int",
+                                                                      Block([Decl("int", "c", None, dims=[2]), ES(A(V("c"), V("arr"))), ES(A(Idx(V("c"), I(0)), val)),
+                                                                             Ret(B("+", B("*", Idx(V("arr"), I(0)), I(100)), Idx(V("c"), I(0))))]), export=True)])))
+        out.append(("global-array-copy-store-both-" + nm, Module([Global("int", "g", [3]), Global("int", "h", [3]),
+                                                                  Func("f", [Arg("int", "a")], "int", Block([ES(A(Idx(V("g"), I(1)), a)), ES(A(V("h"), V("g"))), ES(A(Idx(V("h"), I(1)), val)),
+                                                                                                             Ret(B("+", B("*", Idx(V("g"), I(1)), I(100)), Idx(V("h"), I(1))))]), export=True)])))
+        out.append(("vector-copy-store-both-" + nm, prog([Decl("int3", "v", Ctor("int3", [a, a, a])), Decl("int3", "w", V("v")), ES(A(Mem(V("w"), "x"), val)),
+                                                          Ret(B("+", B("*", Mem(V("v"), "x"), I(100)), Mem(V("w"), "x")))])))
     # a call between the store and the reload: the callee may write the variable
     bump = Func("bump", [Arg("int", "d")], "int", Block([ES(A(V("g0"), B("+", V("g0"), V("d")))), Ret(V("g0"))]))
     nop = Func("nop", [], "int", Block([Ret(I(0))]))
@@ -67,8 +85,9 @@ def run(ctx):
         text, _ = nslgen.render(m, "canonical", rng)
         f = [it for it in m["items"] if it["k"] == "func" and it["export"]][0]
         globs = [it for it in m["items"] if it["k"] == "global"]
-        calls = [{"fn": "f", "args": {a_["n"]: (v if a_["t"] == "int" else float(v) + 0.5) for a_ in f["args"]},
-                  "globals": {g_["n"]: 1 for g_ in globs}, "read_globals": [g_["n"] for g_ in globs]} for v in (0, 2, 5)]
+        shaped = lambda x, dims: x if not dims else [shaped(x, dims[1:]) for _ in range(dims[0])]
+        calls = [{"fn": "f", "args": {a_["n"]: shaped(v if a_["t"] == "int" else float(v) + 0.5, a_.get("dims")) for a_ in f["args"]},
+                  "globals": {g_["n"]: shaped(1, g_.get("dims")) for g_ in globs}, "read_globals": [g_["n"] for g_ in globs]} for v in (0, 2, 5)]
         progs.append((m, calls, text, name))
     for (m, calls, text) in c01.gen_programs(ctx, 120 if ctx.tier == "quick" else 3000):
         progs.append((m, calls, text, "random"))
@@ -141,19 +160,36 @@ def run(ctx):
             stats["optimised_ir_changed"] += 1
         p0 = ircoq.program({"functions": r0["ir"]["functions"], "globals": r0["ir"]["globals"]})
         p1 = ircoq.program({"functions": r1["ir"]["functions"], "globals": r1["ir"]["globals"]})
-        defs, run_expr = vmcases.case_block(k, m, r1, calls, with_spec=True, with_ir=False)     # optimised module vs VM model and reference semantics
+        # whole-array / whole-structure assignment has reference semantics in the VM (no property speaks of it: C03 and C04 name scalars, vectors and
+        # matrices); the reference semantics, which copies, is not compared on those programs -- optimised vs unoptimised and the VM model are
+        aliasing = "-copy-store-both-" in name and not name.startswith("vector")
+        defs, run_expr = vmcases.case_block(k, m, r1, calls, with_spec=not aliasing, with_ir=False)     # optimised module vs VM model and reference semantics
         defs += "Definition U_%d : program := %s.\n" % (k, p0)
-        blocks.append((defs, "(%s + opt_case U_%d P_%d + wf_case P_%d + 1000 * fwd_case U_%d)" % (run_expr, k, k, k, k))); meta.append((text, calls, r1, name))
+        blocks.append((defs, "(%s + opt_case U_%d P_%d + wf_case P_%d + 1000 * fwd_case U_%d + 1000000000000 * fwdflow_case U_%d + 1000000000000000000000 * optfull_case U_%d)" % (run_expr, k, k, k, k, k, k))); meta.append((text, calls, r1, name))
     files = vmcases.write_case_files(ctx, "C02", blocks)
     outs = ctx.eval_cases(files, timeout=900)
     codes = vmcases.collect_codes(ctx, files, outs, len(blocks))
     frag = {"functions": 0, "inside_proved_fragment": 0, "of_which_the_pass_forwards": 0}
+    ffrag = {"functions": 0, "inside_proved_fragment": 0, "of_which_with_several_blocks": 0, "in_which_the_pass_forwards": 0}
+    ofrag = {"functions": 0, "whole_optimiser_theorem_applies": 0, "of_which_with_a_folded_cast": 0, "of_which_with_several_blocks": 0}
     for n_, c in enumerate(codes):
+        if c is not None and c >= 10 ** 21:
+            of = c // 10 ** 21
+            c = codes[n_] = c % 10 ** 21
+            ofrag["functions"] += of // 1000000; ofrag["whole_optimiser_theorem_applies"] += (of // 10000) % 100
+            ofrag["of_which_with_a_folded_cast"] += (of // 100) % 100; ofrag["of_which_with_several_blocks"] += of % 100
+        if c is not None and c >= 10 ** 12:
+            ff = c // 10 ** 12
+            c = codes[n_] = c % 10 ** 12
+            ffrag["functions"] += ff // 1000000; ffrag["inside_proved_fragment"] += (ff // 10000) % 100
+            ffrag["of_which_with_several_blocks"] += (ff // 100) % 100; ffrag["in_which_the_pass_forwards"] += ff % 100
         if c is not None and c >= 1000:
             fc = c // 1000
             codes[n_] = c % 1000
             frag["functions"] += fc // 10000; frag["inside_proved_fragment"] += (fc // 100) % 100; frag["of_which_the_pass_forwards"] += fc % 100
     stats["single_block_functions"] = frag
+    stats["functions_any_control_flow"] = ffrag
+    stats["whole_optimiser"] = ofrag
     bad_spec = [x for x, c in zip(meta, codes) if c is not None and (c & 2 or c & 32)]
     bad_model = [x for x, c in zip(meta, codes) if c is not None and (c & 1 or c & 128)]
     stats["optimiser_model_unmodelled"] = sum(1 for c in codes if c is not None and c & 256)
